@@ -48,7 +48,7 @@ func init() {
 			c = GenDiff(r, "C19", tier) // profile "extreme": values outside the comparison-safe domain
 		case k < 13:
 			// nested aggregations above look-ahead goroutines are where buffers get recycled
-			c = GenDiff(r, []string{"C05", "C04", "C04", "C04", "C06", "C02"}[r.Intn(6)], tier)
+			c = GenDiff(r, []string{"C05", "C04", "C04", "C04", "C06", "C02", "C03", "C03"}[r.Intn(8)], tier)
 		case k < 16:
 			c = GenDist(t, r, prop, tier, pg)
 		case k < 18:
